@@ -69,6 +69,8 @@ func (b *Stack[T]) PopOrWait(waitCondition func() bool) (element T, success bool
 			return
 		}
 
+		verifYield("stack-poporwait-before-wait")
+
 		b.elementAdded.Wait()
 	}
 
